@@ -225,14 +225,46 @@ func appInt(sortOut string, op string, args []Term) (Term, bool) {
 			}
 		}
 		return rawApp(SInt, "uf_bvand", args...), true
-	case "bvor":
-		return rawApp(SInt, "uf_bvor", args...), true
-	case "bvxor":
+	case "bvor", "bvxor":
+		// constants fold; with one non-negative constant mask m whose conjunction is arithmetic:
+		//   a | m == a + m - (a & m),   a ^ m == a + m - 2*(a & m)      (non-negative operands: type range)
+		av, aok := intLitVal(args[0])
+		bv, bok := intLitVal(args[1])
+		if aok && bok && av.Sign() >= 0 && bv.Sign() >= 0 {
+			if op == "bvor" {
+				return intLitBig(new(big.Int).Or(av, bv)), true
+			}
+			return intLitBig(new(big.Int).Xor(av, bv)), true
+		}
+		for i := 0; i < 2; i++ {
+			m, ok := intLitVal(args[i])
+			if !ok || m.Sign() < 0 {
+				continue
+			}
+			if m.Sign() == 0 {
+				return args[1-i], true
+			}
+			conj, _ := appInt(SInt, "bvand", []Term{args[1-i], args[i]})
+			if strings.Contains(conj.T, "uf_bvand") {
+				continue
+			}
+			k := "1"
+			if op == "bvxor" {
+				k = "2"
+			}
+			return Term{SInt, fmt.Sprintf("(- (+ %s %s) (* %s %s))", args[1-i].T, m.String(), k, conj.T)}, true
+		}
+		if op == "bvor" {
+			return rawApp(SInt, "uf_bvor", args...), true
+		}
 		return rawApp(SInt, "uf_bvxor", args...), true
 	case "bvnot":
 		return rawApp(SInt, "uf_bvnot", args...), true
 	case "bvshl":
 		if k, ok := intLitVal(args[1]); ok && k.Sign() >= 0 && k.BitLen() < 16 {
+			if a, aok := intLitVal(args[0]); aok {
+				return intLitBig(new(big.Int).Lsh(a, uint(k.Int64()))), true
+			}
 			return Term{SInt, fmt.Sprintf("(* %s %s)", args[0].T, pow2(int(k.Int64())).String())}, true
 		}
 		return rawApp(SInt, "uf_bvshl", args...), true
